@@ -5,12 +5,30 @@
    the report: its body is a gap-free, overlap-free tiling of the source
    stretch it covers, every match is highlighted exactly once (in place or
    in the overlap list), a highlight is its escaped source span wrapped line
-   by line; the regions partition the matches.  The context lines around the
-   regions and the line numbering of generate_html are part of the executable
-   model and are decided by the byte-exact correspondence run and the
-   HTML-parsing oracle (see DESIGN.md), not yet by a theorem. *)
+   by line; the regions partition the matches.  The line cells (coq/proofs/HtmlLines.v, HtmlCells.v): the cells
+   of escaped source text are its lines, escaped, in order; a highlight wraps
+   every line of its span on its own; the string written for one region is cut
+   by add_line_numbers exactly at the line breaks of its source stretch --
+   every cell is closed by a line-break mark and, its span / link tags
+   dropped, is one escaped source line, in order -- provided the two style
+   strings and the (escaped) rule URL hold no '<'; add_line_numbers gives the
+   i-th cell the i-th number and fails exactly when the numbers run out.  The
+   table of line starts lists the offset behind every line break, so the
+   stretch between its entries b and e holds exactly e-b line breaks
+   (C16_line_table); hence what the model's region_out writes for a region
+   over the lines b..e-1 is cut into e-b cells for those lines plus one closing
+   cell, the numbers listed for it are b..e-1 and one -1, and add_line_numbers
+   pairs cell i with line b+i without running out of numbers
+   (C16_region_numbered, coq/proofs/HtmlNumbers.v).  Premises of the region
+   theorems that stay premises: the last highlight of the region ends in front
+   of the start of line e (true when the text ends with a line break, which the
+   shell guarantees; not derived here), and the style strings and the escaped
+   URL hold no '<'.  The context arithmetic of generate_html (which lines a
+   region covers) and the no-match branch are part of the executable model and
+   are decided by the byte-exact correspondence run and the HTML-parsing oracle
+   (see DESIGN.md). *)
 From Coq Require Import String Sorting.Permutation.
-From YV Require Import PyBase ShellMap Html HtmlProofs HtmlRegion.
+From YV Require Import PyBase ShellMap Html HtmlProofs HtmlRegion HtmlLines HtmlCells HtmlNumbers.
 
 (* (1) protect_html is a character-wise map (the seven substitutions do not
    interfere), hence a homomorphism *)
@@ -96,6 +114,120 @@ Proof. exact group_partition. Qed.
 Theorem C16_regions_nonempty : forall hs, Forall (fun r => r <> []) (group hs [] []).
 Proof. exact group_regions_nonempty. Qed.
 Print Assumptions C16_regions_partition.
+
+(* (10) the line cells.  Escaped source text is cut at its line breaks: the
+   cells are the source lines (line, ends with a line break?), escaped *)
+Theorem C16_plain_cells : forall s,
+  split_br (protect_html s) = map esc_line (split_nl [] s).
+Proof. exact split_protect. Qed.
+Theorem C16_lines_lose_nothing : forall s acc,
+  flat_map (fun l : str * bool => fst l ++ (if snd l then [10%N] else [])) (split_nl acc s) = acc ++ s.
+Proof. exact split_nl_join. Qed.
+Theorem C16_lines_hold_no_break : forall s acc,
+  Forall (fun c => c <> 10%N) acc ->
+  Forall (fun l : str * bool => Forall (fun c => c <> 10%N) (fst l)) (split_nl acc s).
+Proof. exact split_nl_no_break. Qed.
+Print Assumptions C16_plain_cells.
+
+(* (11) span tags never cross a line: every line of the span is wrapped on
+   its own *)
+Theorem C16_highlight_per_line : forall st stu m s lin unsure,
+  exists pre post,
+    generate_highlight st stu m s lin unsure =
+      flat_map (fun l : str * bool =>
+                  pre ++ protect_html (fst l) ++ post ++ (if snd l then br_nl else []))
+               (split_nl [] s).
+Proof. exact highlight_per_line. Qed.
+Print Assumptions C16_highlight_per_line.
+
+(* (12) one region as generate_html writes it (region_out): every cell ends
+   with a line-break mark and, without the report's own tags, is one escaped
+   line of the source stretch st..en, in order *)
+Theorem C16_region_cells : forall st_ stu,
+  no_lt st_ = true -> no_lt stu = true ->
+  forall tex hs st en,
+  (0 <= st)%Z -> (region_last hs st <= en)%Z ->
+  Forall (fun h => (h_beg h <= h_end h)%Z) hs ->
+  Forall (fun h => url_ok (h_m h)) hs ->
+  let html := flat_map (render st_ stu tex) (tiles hs st)
+              ++ protect_html (zslice tex (region_last hs st) en) ++ br_nl in
+  exists cs : list (list atom),
+    split_br html = map (fun r => (render_atoms r, true)) cs /\
+    map (fun r => (render_atoms (untag r), true)) cs
+      = map esc_line (split_nl [] (zslice tex st en ++ [10%N])).
+Proof. exact region_cells. Qed.
+Print Assumptions C16_region_cells.
+
+(* (13) add_line_numbers: the i-th cell gets the i-th number; IndexError
+   exactly when there are more cells than numbers *)
+Theorem C16_number_rows : forall number_style ls nums,
+  number_rows number_style ls nums =
+  if Nat.leb (length ls) (length nums)
+  then Ok (flat_map (fun p => row number_style (fst p) (snd p)) (combine ls nums))
+  else Exc IndexError.
+Proof. exact number_rows_spec. Qed.
+Print Assumptions C16_number_rows.
+
+(* (14) the table of line starts and the numbers of a region *)
+Theorem C16_line_table : forall tex b e p q,
+  (b <= e)%nat ->
+  nth_error (line_starts tex) b = Some p -> nth_error (line_starts tex) e = Some q ->
+  (p <= q <= length tex)%nat /\ count_char c_nl (pyslice tex p q) = (e - b)%nat.
+Proof. exact stretch_breaks. Qed.
+Print Assumptions C16_line_table.
+
+Theorem C16_region_numbered : forall st_ stu number_style,
+  no_lt st_ = true -> no_lt stu = true ->
+  forall tex reg html ov nums,
+  region_out st_ stu tex (line_starts tex) reg = Ok (html, ov, nums) ->
+  (match reg with h0 :: _ => 0 <= h_beglin h0 <= max_endlin reg | [] => False end)%Z ->
+  (forall st en, match reg with h0 :: _ => start_at (line_starts tex) (h_beglin h0) = Ok st | [] => False end ->
+                 start_at (line_starts tex) (max_endlin reg) = Ok en ->
+                 region_last reg st <= en)%Z ->
+  Forall (fun h => (h_beg h <= h_end h)%Z) reg ->
+  Forall (fun h => url_ok (h_m h)) reg ->
+  exists (cs : list (list atom)) b e p q,
+    (match reg with h0 :: _ => Z.of_nat b = h_beglin h0 | [] => False end) /\
+    Z.of_nat e = max_endlin reg /\
+    nth_error (line_starts tex) b = Some p /\ nth_error (line_starts tex) e = Some q /\
+    split_br html = map (fun r => (render_atoms r, true)) cs /\
+    nums = zrange (Z.of_nat b) (Z.of_nat e) ++ [(-1)%Z] /\
+    length cs = length nums /\
+    map (fun r => (render_atoms (untag r), true)) cs
+      = map esc_line (split_nl [] (pyslice tex p q ++ [10%N])) /\
+    number_rows number_style (split_br html) nums =
+      Ok (flat_map (fun x => row number_style (fst x) (snd x))
+                   (combine (map (fun r => (render_atoms r, true)) cs) nums)).
+Proof. exact region_out_numbered. Qed.
+Print Assumptions C16_region_numbered.
+
+(* non-vacuity: a two-line stretch with a highlight across the line break *)
+Example C16_cells_example :
+  let tex := s2l "ab <c" ++ [10%N] ++ s2l "de f" ++ [10%N] ++ s2l "gh" in
+  let m := {| hm_offset := 0; hm_length := 1; hm_message := s2l "m<"; hm_ctx_text := s2l "x";
+              hm_ctx_offset := 0; hm_ctx_length := 1; hm_rule := s2l "R"; hm_repls := [];
+              hm_url := Some (s2l "http://x/&lt;") |} in
+  let h := {| h_beg := 3; h_end := 8; h_unsure := false; h_lin := 0; h_beglin := 0;
+              h_endlin := 2; h_m := m |}%Z in
+  (region_last [h] 0 <= 11)%Z /\ url_ok m /\
+  map fst (split_nl [] (zslice tex 0 11 ++ [10%N])) = [s2l "ab <c"; s2l "de f"; []] /\
+  map snd (split_br (flat_map (render (s2l "s") (s2l "u") tex) (tiles [h] 0)
+                     ++ protect_html (zslice tex (region_last [h] 0) 11) ++ br_nl))
+    = [true; true; true].
+Proof. vm_compute. repeat split; try reflexivity; discriminate. Qed.
+
+Example C16_region_out_example :
+  let tex := s2l "ab <c" ++ [10%N] ++ s2l "de f" ++ [10%N] ++ s2l "gh" ++ [10%N] in
+  let m := {| hm_offset := 0; hm_length := 1; hm_message := s2l "m<"; hm_ctx_text := s2l "x";
+              hm_ctx_offset := 0; hm_ctx_length := 1; hm_rule := s2l "R"; hm_repls := [];
+              hm_url := None |} in
+  let h := {| h_beg := 3; h_end := 8; h_unsure := false; h_lin := 0; h_beglin := 0;
+              h_endlin := 2; h_m := m |}%Z in
+  exists html ov,
+    region_out (s2l "s") (s2l "u") tex (line_starts tex) [h] = Ok (html, ov, [0; 1; -1]%Z) /\
+    start_at (line_starts tex) 2 = Ok 11%Z /\ region_last [h] 0 = 8%Z /\
+    map snd (split_br html) = [true; true; true].
+Proof. eexists _, _. vm_compute. repeat split; reflexivity. Qed.
 
 (* non-vacuity *)
 Example C16_example :
